@@ -49,6 +49,9 @@ def node(spec, shared=None):
     if k == "ref":
         return shared[spec["i"]]
     ch = [node(c, shared) for c in spec.get("c", [])]
+    if k in ("AtLeast", "AtMost") and spec.get("seq"):
+        # the same children, handed over as another kind of iterable
+        ch = {"tuple": tuple(ch), "iter": iter(list(ch)), "gen": (c for c in list(ch))}[spec["seq"]]
     if k == "AtLeast":
         return pg.AtLeast(spec["v"], ch, variable=_var(spec), sign=spec.get("s"))
     if k == "AtMost":
